@@ -303,10 +303,14 @@ pub fn build_result(abort: Option<&str>, stats: &detsim::Stats) -> RunResult {
     res
 }
 
+/// Engines whose runs are far shorter than the step cap (every yield is an atomic or lock operation of tracing-core)
+/// set this: a run that reaches the cap with one thread spinning alone is then a livelock, not a discarded run.
+pub static SPIN_IS_VIOLATION: std::sync::atomic::AtomicBool = std::sync::atomic::AtomicBool::new(false);
+
 pub fn default_abort_class(why: &str) -> (String, String) {
     if why.starts_with("deadlock") {
         ("violation".into(), "deadlock".into())
-    } else if why.starts_with("step-cap:solo-spin") {
+    } else if why.starts_with("step-cap:solo-spin") && SPIN_IS_VIOLATION.load(Ordering::SeqCst) {
         ("violation".into(), "livelock".into())
     } else if why.starts_with("step-cap") {
         ("discard".into(), "step-cap".into())
